@@ -3,7 +3,7 @@ SIM = ("Trusted base: the simulated pika broker and the time model of DESIGN.md 
        "RabbitMQ offline); virtual clock/uuid seams; CPython. Bounds: the scenario corpus named in the evidence file.")
 ENGINES = [
     {"name": "explorer", "path": "harness/explorer.py", "kind_free_text": "stateless DFS explicit-state model checker over the real engine on a simulated broker (replay + fingerprint dedup + deviation bound)",
-     "serves_properties": ["C02", "C03", "C04", "C05", "C10", "C15", "C06", "C08", "C09", "C11"]},
+     "serves_properties": ["C02", "C03", "C04", "C05", "C10", "C15", "C20", "C06", "C08", "C09", "C11"]},
     {"name": "enumerator", "path": "checks/common.py", "kind_free_text": "exhaustive small-scope enumeration of inputs/programs from a stated finite alphabet, each evaluated on the real code and on a reference model under /verif/ref",
      "serves_properties": ["C01", "C07", "C08", "C12", "C13", "C14", "C16", "C17"]},
 ]
@@ -129,6 +129,15 @@ CHECKS["C18"] = {
             "to two healthy executions and explored with deviation bound 2 (healthy results equal the reference, poison events acknowledged, nothing escapes).",
     "note": ENUM + " " + SIM,
     "technique": "exhaustive mutation enumeration + deviation-bounded explicit-state exploration of the implementation",
+}
+CHECKS["C20"] = {
+    "engine": "explorer",
+    "text": "Explicit-state breadth-first search per store kind (JSONStore, SimpleStore, RedisDictStore, RedisListStore over the simulated server): all sequences of set / nested update or append through the returned "
+            "view / get / get_cached_view / delete / in / iterate / len / set_ttl / reopen / corrupt-file reopen / 'deliver one queued invalidation to client c' over 3 keys x 3 values, two clients with cache capacity 2 "
+            "for the Redis kinds, to a fixed point of the canonical state; every placement of every invalidation between operations is a transition. Oracle: a plain dict; a cached read must equal the backend once no "
+            "invalidation for that client is queued; cache size <= capacity; TTL set; data survives a real stop()/re-create; an unreadable file starts empty.",
+    "note": "Trusted base: the simulated redis server / pottery containers (cannot be cross-checked against the real libraries offline) and operation-granularity placement of the invalidation handler (the property's quantifier).",
+    "technique": "explicit-state model checking (BFS over operation sequences with state de-duplication, reference-model oracle)",
 }
 NA = {}
 NOTES = "All checks run the real code of /repo's working tree (imported by path) over /verif/sim; see DESIGN.md."
